@@ -1,0 +1,50 @@
+//go:build verif
+
+// Verification hook (add-only, compiled only with -tags verif): runs the steps of
+// makeCustomizedResMap one by one and hands out deep copies of the intermediate states.
+// Nothing here changes behaviour.
+package target
+
+import (
+	"sigs.k8s.io/kustomize/api/internal/plugins/builtinconfig"
+	"sigs.k8s.io/kustomize/api/resmap"
+	"sigs.k8s.io/kustomize/api/resource"
+)
+
+// VerifC03Stages holds the states of a build around FixBackReferences.
+type VerifC03Stages struct {
+	Acc   resmap.ResMap // after AccumulateTarget
+	Pre   resmap.ResMap // after addHashesToNames, i.e. just before FixBackReferences
+	Post  resmap.ResMap // just after FixBackReferences
+	Rules []builtinconfig.NameBackReferences
+	Stage string // the step that failed, if any
+}
+
+// VerifC03RunStages mirrors makeCustomizedResMap up to and including FixBackReferences.
+func (kt *KustTarget) VerifC03RunStages() (*VerifC03Stages, error) {
+	st := &VerifC03Stages{}
+	var origin *resource.Origin
+	if len(kt.kustomization.BuildMetadata) != 0 {
+		origin = &resource.Origin{}
+	}
+	kt.origin = origin
+	st.Stage = "accumulate"
+	ra, err := kt.AccumulateTarget()
+	if err != nil {
+		return st, err
+	}
+	st.Acc = ra.VerifC03Live().DeepCopy()
+	st.Stage = "hash"
+	if err = kt.addHashesToNames(ra); err != nil {
+		return st, err
+	}
+	st.Pre = ra.VerifC03Live().DeepCopy()
+	st.Rules = ra.VerifC03BackRefs()
+	st.Stage = "nameref"
+	if err = ra.FixBackReferences(); err != nil {
+		return st, err
+	}
+	st.Post = ra.VerifC03Live().DeepCopy()
+	st.Stage = ""
+	return st, nil
+}
